@@ -493,11 +493,6 @@ func execute(cs Case) (res Result) {
 			res.Fail, res.Msg = "harness-panic", fmt.Sprint(r)
 		}
 	}()
-	steps, ok := applyAll(cs.Conv, cs.Devs)
-	if !ok {
-		res.Skipped = true
-		return res
-	}
 	trunc, truncEnd := -1, ""
 	for _, d := range cs.Devs {
 		if d.Op == "trunc" {
@@ -513,6 +508,12 @@ func execute(cs Case) (res Result) {
 		}
 	}
 	env := sysx.NewEnv()
+	// (after NewEnv: the KeyMgmt headers of the secure conversations carry the library clock's time)
+	steps, ok := applyAll(cs.Conv, cs.Devs)
+	if !ok {
+		res.Skipped = true
+		return res
+	}
 	var tlsConf *tls.Config
 	if cs.Cfg.TLS {
 		tlsConf = serverTLSConfig()
